@@ -92,11 +92,22 @@ func (c *escapeCallsiteInfoImpl) Resolve(callee *ssa.Function) dataflow.EscapeCa
 	// For argument/parameter nodes, these will be distinct, but their pointees (representing heap objects)
 	// will be the same exact Nodes.
 	mapNode = func(callerNode *Node, inner *Node) {
-		g.status[inner] = c.g.status[callerNode]
-		if c.g.status[callerNode] == Leaked {
-			g.rationales[inner] = c.g.rationales[callerNode]
+		g.AddNode(inner)
+		// inner may represent several caller nodes (e.g. several possible receivers): keep the weakest status
+		if c.g.status[callerNode] >= g.status[inner] {
+			g.status[inner] = c.g.status[callerNode]
+			if c.g.status[callerNode] == Leaked {
+				g.rationales[inner] = c.g.rationales[callerNode]
+			}
 		}
 		for _, e := range c.g.Edges(callerNode, nil, EdgeAll) {
+			if e.isSubnode && callerNode != inner {
+				// Struct-typed value: the fields of the caller's node correspond to the analogous fields of inner
+				if sub := g.AnalogousSubnode(inner, e.dest); sub != nil {
+					mapNode(e.dest, sub)
+				}
+				continue
+			}
 			pointee := e.dest
 			nodes.AddForeignNode(pointee)
 			g.AddEdge(inner, pointee, e.mask)
@@ -111,9 +122,16 @@ func (c *escapeCallsiteInfoImpl) Resolve(callee *ssa.Function) dataflow.EscapeCa
 		// An invoke, e.g. t3.Method(t5)
 		// The callsite parameters do not include the receiver, but the callee Params do
 		// We need to map those two correctly and then offset the rest of the args
-		mapNode(c.nodes.ValueNode(c.callsite.Call.Value), nodes.ValueNode(callee.Params[0]))
+		if lang.IsNillableType(callee.Params[0].Type()) {
+			mapNode(c.nodes.ValueNode(c.callsite.Call.Value), nodes.ValueNode(callee.Params[0]))
+		} else if IsEscapeTracked(callee.Params[0].Type()) {
+			// The receiver has struct type: it is a copy of the objects the interface value points to
+			for x := range c.g.Pointees(c.nodes.ValueNode(c.callsite.Call.Value)) {
+				mapNode(x, nodes.ValueNode(callee.Params[0]))
+			}
+		}
 		for i, arg := range c.callsite.Call.Args {
-			if lang.IsNillableType(arg.Type()) {
+			if IsEscapeTracked(arg.Type()) {
 				mapNode(c.nodes.ValueNode(arg), nodes.ValueNode(callee.Params[i+1]))
 			}
 		}
@@ -124,7 +142,7 @@ func (c *escapeCallsiteInfoImpl) Resolve(callee *ssa.Function) dataflow.EscapeCa
 		if c.callsite.Call.StaticCallee() == nil {
 			// An indirect function call, e.g. t3(t5)
 			for _, freeVar := range callee.FreeVars {
-				if lang.IsNillableType(freeVar.Type()) {
+				if IsEscapeTracked(freeVar.Type()) {
 					for closureNode := range c.g.Pointees(c.nodes.ValueNode(c.callsite.Call.Value)) {
 						mapNode(c.g.FieldSubnode(closureNode, freeVar.Name(), freeVar.Type()), nodes.ValueNode(freeVar))
 					}
@@ -133,7 +151,7 @@ func (c *escapeCallsiteInfoImpl) Resolve(callee *ssa.Function) dataflow.EscapeCa
 		} else if _, ok := c.callsite.Call.Value.(*ssa.MakeClosure); ok {
 			// A immediately invoked function, i.e. t3(t5) where t3 = MakeClosure...
 			for _, freeVar := range callee.FreeVars {
-				if lang.IsNillableType(freeVar.Type()) {
+				if IsEscapeTracked(freeVar.Type()) {
 					for closureNode := range c.g.Pointees(c.nodes.ValueNode(c.callsite.Call.Value)) {
 						mapNode(c.g.FieldSubnode(closureNode, freeVar.Name(), freeVar.Type()), nodes.ValueNode(freeVar))
 					}
@@ -144,7 +162,7 @@ func (c *escapeCallsiteInfoImpl) Resolve(callee *ssa.Function) dataflow.EscapeCa
 
 		// Now do the args, for all case except invoke
 		for i, arg := range c.callsite.Call.Args {
-			if lang.IsNillableType(arg.Type()) {
+			if IsEscapeTracked(arg.Type()) {
 				mapNode(c.nodes.ValueNode(arg), nodes.ValueNode(callee.Params[i]))
 			}
 		}
